@@ -202,6 +202,34 @@ def main_c12(run):
                     continue
                 key = f"{kind}:{name}"
                 intro.setdefault(key, c.text)
+        # deep chains of let bindings whose names end in digits: the allocator must keep the names it derives
+        # from (binding name, counter) distinct whatever the digits are
+        import types as _types
+        from hy.compiler import hy_compile as _hy_compile
+        pool = ["x", "x1", "x11", "x2", "x12", "y", "y1", "a1", "a"]
+        for _k in range(60 if run.quick else 1500):
+            depth = rng.randint(11, 30)
+            names_ = [rng.choice(pool) for _ in range(depth)]
+            inner = "[" + " ".join(sorted(set(names_))) + "]"
+            text = inner
+            for lvl in range(depth, 0, -1):
+                text = f"(let [{names_[lvl - 1]} {lvl}] {text})"
+            text = "(setv R " + text + ")"
+            del cur[:]
+            mod = _types.ModuleType("hyv_deeplet")
+            try:
+                code = compile(_hy_compile(hy.read_many(text), mod), "<deeplet>", "exec")
+                exec(code, mod.__dict__)
+            except Exception as x:
+                run.violation("deeplet:" + text, f"deep let chain failed: {type(x).__name__}: {x}", {"text": text})
+                continue
+            stream = list(cur)
+            issued_streams.append({"names": stream, "reserved": [int(x.startswith("_hy_")) for x in stream]})
+            want = [max(l for l in range(1, depth + 1) if names_[l - 1] == n) for n in sorted(set(names_))]
+            run.case(text)
+            if list(mod.R) != want:
+                run.violation("deeplet:" + text, f"innermost bindings should be {want}, the program gives {list(mod.R)}: {text}",
+                              {"text": text})
         for key, text in sorted(intro.items()):
             run.violation("introduced:" + key, f"compiled code contains the non-reserved name {key} that is not "
                           f"in the program, e.g. for {text}", {"text": text, "name": key})
